@@ -873,6 +873,27 @@ def run_route(c):
         out["ref_bcast"] = rb
     out["routes"] = routes
     out["funcs"] = funcs
+    # the real exponent / factor of ** , * , / in every representation of one real number
+    kv, sv = unhex(c["k"]), unhex(c["s"])
+    reps = [("float", float), ("f64", np.float64), ("f32", np.float32), ("0d", lambda v: np.array(v)),
+            ("int", int), ("i64", np.int64)]
+    sc = {}
+    for op, val, fn in (("pow", kv, lambda r: m ** r), ("smul", sv, lambda r: m * r), ("rmul", sv, lambda r: r * m),
+                        ("sdiv", sv, lambda r: m / r)):
+        sc[op] = {}
+        for rn, conv in reps:
+            if rn in ("int", "i64") and val != int(val):
+                continue
+            try:
+                r = fn(conv(val))
+                dd = describe(r)
+                bb = dd["base"] if "t" in dd else dd
+                ln = bb["log_norm"]
+                sc[op][rn] = {"wrap": dd.get("t"), "cls": bb["cls"], "elems": bb["elems"], "id": bb["id"], "lo": bb["lo"],
+                              "hi": bb["hi"], "log_norm": ln if isinstance(ln, list) else [ln], "shape": bb["shape"]}
+            except BaseException as ex:  # noqa
+                sc[op][rn] = "exc:" + exc_name(ex) + ": " + str(ex)[:120]
+    out["scal"] = sc
     return out
 
 
